@@ -380,6 +380,7 @@ def _params(op, rng, shape, A):
     elif op in ("sptenmat_rt", "sptenmat_ctor", "sptenmat_setitem"):
         parts = gen.ordered_partitions(N)
         p["r"], p["c"] = parts[int(rng.integers(0, len(parts)))]
+        p["more"] = bool(rng.integers(0, 2))
     elif op == "from_aggregator":
         p["dup"] = [int(x) for x in rng.integers(1, 3, size=max(1, int(np.count_nonzero(A))))]
     return p
@@ -425,6 +426,11 @@ def _invoke(op, SA, SB, p):
         sh = M.shape
         M[sh[0] - 1, sh[1] - 1] = 9.0
         M[0, 0] = 8.0
+        if p.get("more"):
+            # an index list naming a row more than once, and zero assigned to a stored and to an empty position
+            M[[0, sh[0] - 1, 0], sh[1] - 1] = 4.0
+            M[0, 0] = 0
+            M[sh[0] - 1, 0] = 0.0
         return M
     if op == "permute":
         return SA.permute(np.array(p["order"]))
@@ -549,6 +555,10 @@ def _reference(op, A, B, p):
             M = reference_matricize(A, p["r"], p["c"])
             M[M.shape[0] - 1, M.shape[1] - 1] = 9.0
             M[0, 0] = 8.0
+            if p.get("more"):
+                M[[0, M.shape[0] - 1, 0], M.shape[1] - 1] = 4.0
+                M[0, 0] = 0
+                M[M.shape[0] - 1, 0] = 0.0
             # back to tensor layout
             from ..denote import matricized_index
 
